@@ -327,6 +327,7 @@ impl Segment {
 }
 impl Partition {
     // construction is another subsystem; the record carries the ids it was created for
+    // LINKED: units/wiring/lemmas.rs, harness [C16.link.catalogue_more.partition_create] (mirror edits there)
     #[verifier::external_body]
     pub fn create(stream_id: u32, topic_id: u32, partition_id: u32, with_segment: bool, config: SystemConfig, storage: SystemStorage,
         message_expiry: IggyExpiry, messages_count_of_parent_stream: Counter64, messages_count_of_parent_topic: Counter64,
